@@ -211,6 +211,21 @@ struct VecCheck {
         if (again.def) expect_vec("operator+=(after -=)", t, again.v, ctx);
       }
     }
+    // the result object aliases an operand: t = t + b, u = a + u, t = t - b, u = a - u (and cross below)
+    if (sum.def) {
+      V t = a, u = b;
+      t = t + b;
+      u = a + u;
+      expect_vec("operator+(result-over-left-operand)", t, sum.v, ctx);
+      expect_vec("operator+(result-over-right-operand)", u, sum.v, ctx);
+    }
+    if (dif.def) {
+      V t = a, u = b;
+      t = t - b;
+      u = a - u;
+      expect_vec("operator-(result-over-left-operand)", t, dif.v, ctx);
+      expect_vec("operator-(result-over-right-operand)", u, dif.v, ctx);
+    }
     expect_vec("operands-unchanged", a, ca, ctx);
     expect_vec("operands-unchanged", b, cb, ctx);
     bool eq = true;
@@ -251,6 +266,13 @@ struct VecCheck {
         V c = a.cross(b);
         A cc = comps(c);
         expect_vec("cross", c, want.v, ctx);
+        {
+          V t = a, u = b;
+          t = t.cross(b);
+          u = a.cross(u);
+          expect_vec("cross(result-over-left-operand)", t, want.v, ctx);
+          expect_vec("cross(result-over-right-operand)", u, want.v, ctx);
+        }
         // orthogonal to both operands; Lagrange identity |a x b|^2 = |a|^2 |b|^2 - (a.b)^2 (rules out the zero vector).
         // Decided where the arithmetic is exact: 32/64-bit integer T with every intermediate defined (unsigned: ring
         // identities modulo 2^w), or small-integer FP values.  8/16-bit T stores the components reduced modulo 2^w.
@@ -381,6 +403,119 @@ struct VecCheck {
     if (!bad) r.ok(s == 0 ? "unary+scalar: s=0 (division not executed)" : "unary+scalar");
   }
 
+  // ---- aliased operands ---------------------------------------------------------------------------------------------
+  // The operand expression names (part of) the object that is being updated: v op= v.x / v.y / v.z / v.w (every
+  // component, through its primary name, through each alias name of the union and through at(i)), the non-assigning
+  // operator with the same operand whose result is assigned back (v = v op v.x), and the object itself as the vector
+  // operand with the result assigned back (v = v + v, v = v - v, v = -v, v = v.cross(v)).  Reference semantics: the
+  // value of the operand is taken BEFORE the operation (v /= s divides every component by the same number s).
+  static constexpr int n_names() { return N == 3 ? 3 : 2; }  // ways to name a component as an lvalue
+  static const T& comp_ref(const V& v, size_t i, int form) {
+    if constexpr (N == 2) {
+      if (form == 0) return i == 0 ? v.x : v.y;
+      return i == 0 ? v.a : v.b;
+    } else if constexpr (N == 3) {
+      if (form == 0) return i == 0 ? v.x : (i == 1 ? v.y : v.z);
+      if (form == 1) return i == 0 ? v.rx : (i == 1 ? v.ry : v.rz);
+      return i == 0 ? v.r : (i == 1 ? v.g : v.b);
+    } else {
+      if (form == 0) return i == 0 ? v.x : (i == 1 ? v.y : (i == 2 ? v.z : v.w));
+      return i == 0 ? v.r : (i == 1 ? v.g : (i == 2 ? v.b : v.a));
+    }
+  }
+  static std::string comp_name(size_t i, int form) {
+    static const char* N2[2][2] = {{"x", "y"}, {"a", "b"}};
+    static const char* N3[3][3] = {{"x", "y", "z"}, {"rx", "ry", "rz"}, {"r", "g", "b"}};
+    static const char* N4[2][4] = {{"x", "y", "z", "w"}, {"r", "g", "b", "a"}};
+    if (form == n_names()) return vf::fmt("at(%zu)", i);
+    if constexpr (N == 2) return N2[form][i];
+    else if constexpr (N == 3) return N3[form][i];
+    else return N4[form][i];
+  }
+  // s is handed on exactly as received: when the library takes its scalar by reference, it binds to the caller's lvalue
+  static V* compound(V& t, char op, const T& s) {
+    switch (op) {
+      case '+': return &(t += s);
+      case '-': return &(t -= s);
+      case '*': return &(t *= s);
+      case '/': return &(t /= s);
+      case '%':
+        if constexpr (!R::FP) return &(t %= s);
+        break;
+    }
+    return nullptr;
+  }
+  static V binary(const V& t, char op, const T& s) {
+    switch (op) {
+      case '+': return t + s;
+      case '-': return t - s;
+      case '*': return t * s;
+      case '/': return t / s;
+      case '%':
+        if constexpr (!R::FP) return t % s;
+        break;
+    }
+    return t;
+  }
+
+  void aliased(const A& ca) {
+    bad = false;
+    const V a = mk<T>(ca);
+    size_t compared = 0;
+    static const struct { char op; const char* sym; } OPS[5] = {{'+', "+"}, {'-', "-"}, {'*', "*"}, {'/', "/"}, {'%', "%"}};
+    for (auto& o : OPS) {
+      if (o.op == '%' && R::FP) continue;
+      for (size_t i = 0; i < N; i++) {
+        for (int form = 0; form <= n_names(); form++) {  // the last form is at(i)
+          const bool via_at = form == n_names();
+          V t = a, u = a;
+          const T s = via_at ? t.at(i) : comp_ref(t, i, form);  // value of the operand before the operation
+          OptA want = map1(ca, s, o.op);
+          if (!want.def) continue;  // division by zero / signed overflow: neither executed nor compared
+          compared++;
+          auto ctx = [&] { return "v=" + astr(ca) + vf::fmt(", operand v.%s (= %s, taken before the operation)", comp_name(i, form).c_str(), vstr<T>(s).c_str()); };
+          std::string cname = vf::fmt("operator%s=(scalar-aliases-a-component)", o.sym);
+          std::string bname = vf::fmt("operator%s(scalar-aliases-a-component,result-assigned-back)", o.sym);
+          V* ref = nullptr;
+          int sig = trapped([&] { ref = via_at ? compound(t, o.op, t.at(i)) : compound(t, o.op, comp_ref(t, i, form)); });
+          if (sig) {
+            bad = true;
+            r.fail(vf::fmt("Vector%zu::", N) + cname + ":arithmetic-trap", [&] { return cls + " " + ctx() + vf::fmt(": v %s= v.%s raised signal %d (%s); the componentwise definition gives ", o.sym, comp_name(i, form).c_str(), sig, strsignal(sig)) + astr(want.v); });
+          } else {
+            expect_vec(cname.c_str(), t, want.v, ctx);
+            if (ref != &t) { bad = true; r.fail(vf::fmt("Vector%zu::", N) + cname + ":returns-other-object", [&] { return cls + " " + ctx(); }); }
+          }
+          sig = trapped([&] { u = via_at ? binary(u, o.op, u.at(i)) : binary(u, o.op, comp_ref(u, i, form)); });
+          if (sig) {
+            bad = true;
+            r.fail(vf::fmt("Vector%zu::", N) + bname + ":arithmetic-trap", [&] { return cls + " " + ctx() + vf::fmt(": v = v %s v.%s raised signal %d (%s)", o.sym, comp_name(i, form).c_str(), sig, strsignal(sig)); });
+          } else expect_vec(bname.c_str(), u, want.v, ctx);
+        }
+      }
+    }
+    // the object itself as the vector operand, result assigned back
+    {
+      auto ctx = [&] { return "v=" + astr(ca); };
+      OptA dbl = map2(ca, ca, '+'), zero = map2(ca, ca, '-'), neg;
+      for (size_t i = 0; i < N; i++) neg.def = R::narrow(R::neg(R::lift(ca[i])), neg.v[i]) && neg.def;
+      if (dbl.def) { V t = a; t = t + t; expect_vec("operator+(v=v+v)", t, dbl.v, ctx); compared++; }
+      if (zero.def) { V t = a; t = t - t; expect_vec("operator-(v=v-v)", t, zero.v, ctx); compared++; }
+      if (neg.def) { V t = a; t = -t; expect_vec("operator-(unary,v=-v)", t, neg.v, ctx); compared++; }
+      if constexpr (N == 3) {
+        OptA cz = crossv(ca, ca);
+        if (cz.def && !(R::FP && !exact)) { V t = a; t = t.cross(t); expect_vec("cross(v=v.cross(v))", t, cz.v, ctx); compared++; }
+      }
+      {
+        V t = a;
+        const V& same = t;
+        t = same;  // self-assignment
+        expect_vec("assignment(v=v)", t, ca, ctx);
+      }
+    }
+    r.nontriv();
+    if (!bad) r.ok(compared ? "aliased operands" : "aliased operands: no defined operation");
+  }
+
   // operator< is a strict weak order consistent with == (one triple)
   void triple(const A& ca, const A& cb, const A& cc) {
     bad = false;
@@ -418,11 +553,18 @@ std::vector<std::array<T, N>> all_vectors(const std::vector<T>& al) {
   return out;
 }
 
+// `alias_al`: component alphabet of the vectors on which the aliased-operand forms run (defaults to `al`)
 template <class T, size_t N>
-void vec_pairs(vf::Run& r, const std::vector<T>& al, const std::vector<T>& scalars, bool exact, const char* what) {
+void vec_pairs(vf::Run& r, const std::vector<T>& al, const std::vector<T>& scalars, bool exact, const char* what, const std::vector<T>* alias_al = nullptr) {
   r.note(vf::fmt("Vector%zu<%s> %s", N, tname<T>(), what));
   VecCheck<T, N> ck(r, exact);
   auto all = all_vectors<T, N>(al);
+  // aliased operands: every vector x every scalar compound / binary operator x every component x every way to name it
+  for (auto& a : all_vectors<T, N>(alias_al ? *alias_al : al)) {
+    if (!r.take()) continue;
+    if (r.wants_desc()) r.desc(vf::fmt("Vector%zu<%s> v=%s: v op= v.<component> and v = v op v.<component> for op in + - * / %%, every component by each of its names and through at(i); v = v + v, v = v - v, v = -v, v = v.cross(v), v = v", N, tname<T>(), astr(a).c_str()));
+    ck.aliased(a);
+  }
   // vector (op) scalar and unary operators: every vector x every scalar
   for (auto& a : all) {
     for (T s : scalars) {
